@@ -192,11 +192,10 @@ class ClientTask:
                 cl.abort()
                 cl.conn.sync()
                 continue
-            if kind == 'db_minimize':
-                # every connection's cache, also of connections that are
-                # in the middle of a transaction in another task
-                w.db.cacheMinimize()
-                continue
+            # (DB.cacheMinimize() from another task is not generated: it
+            # ghostifies objects of a connection that is in the middle of
+            # registering them -- connections and their caches are not
+            # thread-safe by design, no listed property says otherwise)
             if kind == 'invalidate_cache':
                 # what a storage does that cannot tell what changed (the
                 # IStorageWrapper callback): every connection drops its
@@ -332,7 +331,7 @@ def gen_script(r, ncell, ntxn, write_p=0.5, rc_p=0.0, abort_p=0.08,
         x = r.random()
         if x < misc_p:
             out.append({'t': r.choice(('reopen', 'minimize', 'sync', 'reopen',
-                                       'minimize', 'sync', 'db_minimize',
+                                       'minimize', 'sync',
                                        'invalidate_cache', 'cache_gc'))})
             continue
         steps = []
